@@ -9,10 +9,12 @@ pub mod c04;
 pub mod c05;
 pub mod c06;
 pub mod c06_shell;
+pub mod c09;
 pub mod c10;
 pub mod c11;
 pub mod c12;
 pub mod c13;
+pub mod c14;
 pub mod c15;
 pub mod decide;
 pub mod c16;
@@ -25,6 +27,7 @@ pub fn run(ctx: &Ctx) -> Option<&'static str> {
         "C02" => Some(c02::run(ctx)),
         "C03" => Some(c03::run(ctx)),
         "C04" => Some(c04::run(ctx)),
+        "C09" => Some(c09::run(ctx)),
         "C10" => Some(c10::run(ctx)),
         "C11" => Some(c11::run(ctx)),
         "C12" => Some(c12::run(ctx)),
@@ -33,6 +36,7 @@ pub fn run(ctx: &Ctx) -> Option<&'static str> {
         "C17" => Some(c17::run(ctx)),
         "C16" => Some(c16::run(ctx)),
         "C13" => Some(c13::run(ctx)),
+        "C14" => Some(c14::run(ctx)),
         "C15" => Some(c15::run(ctx)),
         _ => None,
     }
